@@ -99,8 +99,15 @@ func Saturated(s Script) bool {
 			return false
 		}
 	}
+	// a buffer smaller than the supply stays non-empty only when a producer blocked on it refills it
+	// before the discipline reads again: v1 with an unbuffered output and a consumer that waits for
+	// quiescence after every receive reads one item per quiescent interval
+	small := s.Strict && s.Ver == 1 && s.OutCap == 0
 	for _, in := range s.Ins {
-		if in.Cap < in.Prefill || in.Prefill < int(s.H)+rel+1 {
+		if in.Prefill < int(s.H)+rel+1 {
+			return false
+		}
+		if in.Cap < in.Prefill && !(small && in.Cap >= 1) {
 			return false
 		}
 	}
